@@ -15,6 +15,9 @@ mod metrics;
 mod ordered_commit;
 #[cfg(test)]
 mod tests;
+#[cfg(feature = "verif-hooks")]
+#[allow(missing_docs, unreachable_pub, missing_debug_implementations)]
+pub mod verif_drivers;
 mod wait;
 
 use crate::{
@@ -232,6 +235,8 @@ where
     /// A transaction becomes final only while it is `Unconfirmed` and its validation timestamp is
     /// newer than every validation rewind affecting this prefix. Finality never skips an index.
     fn run_finality_loop(&self) {
+        #[cfg(feature = "verif-hooks")]
+        let _verif_thread = crate::verif::rt::enroll(1);
         self.finality_wait.register_current_thread();
         let mut last_progress = Instant::now();
         let mut finality_idx = 0;
@@ -247,6 +252,8 @@ where
                 let dependency = tx_state.dependency;
                 tx_state.status = TransactionStatus::Finality;
                 drop(tx_state);
+                #[cfg(feature = "verif-hooks")]
+                crate::verif::rt::pt2("finalize", finality_idx, effective_lower_ts);
 
                 let next_finality_idx = finality_idx + 1;
                 self.scheduler_ctx.publish_finality(next_finality_idx);
@@ -296,16 +303,22 @@ where
         finality_idx: usize,
         lower_ts: usize,
     ) -> Option<(MutexGuard<'_, TxState>, usize)> {
+        #[cfg(feature = "verif-hooks")]
+        crate::verif::rt::pt1("fin_read_vcur", finality_idx);
         if finality_idx >= self.block_size || finality_idx >= self.scheduler_ctx.validation_idx() {
             return None;
         }
         // Read the validation frontier first, then decide status and timestamp eligibility under
         // the transaction lock. Together with contiguous finality, this prevents a candidate from
         // passing a rewind that invalidates it or an earlier transaction.
+        #[cfg(feature = "verif-hooks")]
+        crate::verif::rt::before_lock("lock_txstate", finality_idx, || self.tx_states[finality_idx].is_locked());
         let tx_state = self.tx_states[finality_idx].lock();
         if tx_state.status != TransactionStatus::Unconfirmed {
             return None;
         }
+        #[cfg(feature = "verif-hooks")]
+        crate::verif::rt::pt1("fin_read_ts", finality_idx);
 
         // Carry the largest rewind timestamp through the contiguous prefix: every later candidate
         // must have been validated after that rewind as well.
@@ -320,12 +333,16 @@ where
     /// exclusive prefix. `OrderedCommitter::commit` applies state, beneficiary rewards, and the
     /// outcome before this loop publishes that prefix.
     fn run_commit_loop(&self, committer: &mut OrderedCommitter<DB>) -> CommitLoopResult<DB::Error> {
+        #[cfg(feature = "verif-hooks")]
+        let _verif_thread = crate::verif::rt::enroll(2);
         self.commit_wait.register_current_thread();
         let mut output = OrderedCommitOutput::with_capacity(self.block_size);
         let mut commit_idx = 0;
         while !self.is_aborted() && commit_idx < self.block_size {
             let previous_commit_idx = commit_idx;
             while commit_idx < self.scheduler_ctx.finality_idx() {
+                #[cfg(feature = "verif-hooks")]
+                crate::verif::rt::before_lock("lock_txresult", commit_idx, || self.tx_results[commit_idx].is_locked());
                 let Some(tx_result) = self.tx_results[commit_idx].lock().take() else {
                     self.abort(AbortReason::ParallelError {
                         txid: commit_idx,
@@ -343,6 +360,10 @@ where
                     });
                     return CommitLoopResult { committed: output, error: None };
                 };
+                #[cfg(feature = "verif-hooks")]
+                crate::verif::rt::pt1("commit_apply", commit_idx);
+                #[cfg(feature = "verif-hooks")]
+                crate::verif::commit_event(commit_idx, &result);
                 let commit_start = Instant::now();
                 let outcome =
                     committer.commit(commit_idx, &self.txs[commit_idx], result, &mut output);
@@ -351,6 +372,8 @@ where
                     Ok(CommitOutcome::Committed(committed)) => {
                         let next_commit_idx = committed.index();
                         self.scheduler_ctx.publish_commit(next_commit_idx);
+                        #[cfg(feature = "verif-hooks")]
+                        crate::verif::rt::pt1("commit_dep_release", commit_idx);
                         // Publish committed state before releasing work that may require it.
                         self.tx_dependency.commit(commit_idx);
                         commit_idx = next_commit_idx;
@@ -446,6 +469,8 @@ where
                 for _ in 0..concurrency_level {
                     workers.push(scope.spawn(|| {
                         let _cancel = self.cancel_on_panic();
+                        #[cfg(feature = "verif-hooks")]
+                        let _verif_thread = crate::verif::rt::enroll(0);
                         let incarnation_db =
                             IncarnationDb::new(&state_view, &self.mv_memory, &beneficiary);
                         let mut cfg = self.cfg.clone();
@@ -533,6 +558,8 @@ where
         WorkerDB: DatabaseRef<Error = DB::Error>,
     {
         let TxVersion { txid, incarnation } = tx_version.clone();
+        #[cfg(feature = "verif-hooks")]
+        crate::verif::rt::before_lock("lock_txstate", txid, || self.tx_states[txid].is_locked());
         let mut tx_state = self.tx_states[txid].lock();
         // Cursor claims are advisory and may become stale after a rewind. The locked status and
         // incarnation are the authority for whether this task may execute.
@@ -549,8 +576,12 @@ where
         self.metrics.record_execution_attempt();
 
         let tx_env = self.txs[txid].clone();
+        #[cfg(feature = "verif-hooks")]
+        crate::verif::rt::pt2("exec_begin", txid, incarnation);
         let IncarnationExecution { result, accesses } =
             executor.execute_incarnation(tx_version.clone(), tx_env);
+        #[cfg(feature = "verif-hooks")]
+        crate::verif::rt::pt4("exec_end", txid, incarnation, result.is_ok() as usize, accesses.is_blocked() as usize);
 
         // If this incarnation expands its write set, already validated suffix transactions may
         // have missed a new predecessor and validation must rewind to this transaction. Existing
@@ -568,6 +599,8 @@ where
                     blocked_by_beneficiary,
                 } = accesses;
 
+                #[cfg(feature = "verif-hooks")]
+                crate::verif::rt::before_lock("lock_txresult", txid, || self.tx_results[txid].is_locked());
                 let mut last_result = self.tx_results[txid].lock();
                 if let Some(last_result) = last_result.as_ref() {
                     for location in write_set.iter() {
@@ -577,6 +610,10 @@ where
                         }
                     }
                     for location in &last_result.write_set {
+                        #[cfg(feature = "verif-hooks")]
+                        if !write_set.contains(location) {
+                            crate::verif::rt::pt2("mv_remove", txid, crate::verif::loc_hash(location));
+                        }
                         if !write_set.contains(location) &&
                             let Some(mut written_transactions) = self.mv_memory.get_mut(location)
                         {
@@ -587,6 +624,8 @@ where
                     write_new_locations = true;
                 }
 
+                #[cfg(feature = "verif-hooks")]
+                crate::verif::rt::pt2("hist_record", txid, conflict as usize);
                 let history_published = if conflict {
                     beneficiary.record_estimate(&tx_version)
                 } else {
@@ -626,11 +665,15 @@ where
                 conflict = true;
                 let mut write_set = HashSet::new();
 
+                #[cfg(feature = "verif-hooks")]
+                crate::verif::rt::before_lock("lock_txresult", txid, || self.tx_results[txid].is_locked());
                 let mut last_result = self.tx_results[txid].lock();
                 if let Some(last_result) = last_result.as_mut() {
                     write_set = std::mem::take(&mut last_result.write_set);
                     self.mark_mv_estimate(txid, &write_set);
                 }
+                #[cfg(feature = "verif-hooks")]
+                crate::verif::rt::pt2("hist_record", txid, 1);
                 if !beneficiary.record_estimate(&tx_version) {
                     self.abort(AbortReason::ParallelError {
                         txid,
@@ -653,6 +696,8 @@ where
                     self.tx_dependency.add(txid, self.latest_unfinalized_blocker(&blocking_txs));
                 } else {
                     self.metrics.record_evm_error_conflict();
+                    #[cfg(feature = "verif-hooks")]
+                    crate::verif::rt::pt1("err_read_commit", txid);
                     if self.scheduler_ctx.committed_idx() == txid {
                         if invalid_transaction {
                             self.abort(AbortReason::FallbackSequential);
@@ -667,6 +712,8 @@ where
 
         tx_state.status =
             if conflict { TransactionStatus::Conflict } else { TransactionStatus::Executed };
+        #[cfg(feature = "verif-hooks")]
+        crate::verif::rt::pt4("exec_result", txid, conflict as usize, write_new_locations as usize, next.map_or(usize::MAX, |n| n));
         self.scheduler_ctx.executed(txid);
 
         if let Some(next) = next {
@@ -690,7 +737,11 @@ where
     fn validate(&self, beneficiary: &Beneficiary, tx_version: TxVersion) -> Option<Task> {
         let txid = tx_version.txid;
         let incarnation = tx_version.incarnation;
+        #[cfg(feature = "verif-hooks")]
+        crate::verif::rt::before_lock("lock_txstate", txid, || self.tx_states[txid].is_locked());
         let mut tx_state = self.tx_states[txid].lock();
+        #[cfg(feature = "verif-hooks")]
+        crate::verif::rt::before_lock("lock_txresult", txid, || self.tx_results[txid].is_locked());
         let tx_result = self.tx_results[txid].lock();
         if tx_state.status != TransactionStatus::Validating {
             return None;
@@ -727,6 +778,8 @@ where
         let mut conflict = false;
         let mut dependency: Option<TxId> = None;
         for (location, version) in result.read_set.iter() {
+            #[cfg(feature = "verif-hooks")]
+            crate::verif::rt::pt2("val_check", txid, crate::verif::loc_hash(location));
             if let ReadVersion::Beneficiary(expected) = version {
                 let validation = beneficiary.validate(txid, expected);
                 if !validation.is_valid() {
@@ -761,10 +814,14 @@ where
                 conflict = true;
             }
         }
+        #[cfg(feature = "verif-hooks")]
+        crate::verif::rt::pt2("val_scan_done", txid, conflict as usize);
         if conflict {
             self.metrics.record_version_conflict();
             // Readers must not validate against writes produced by an invalid incarnation.
             self.mark_mv_estimate(txid, &result.write_set);
+            #[cfg(feature = "verif-hooks")]
+            crate::verif::rt::pt1("hist_invalidate", txid);
             if !beneficiary.invalidate(&tx_version) {
                 self.abort(AbortReason::ParallelError {
                     txid,
@@ -791,6 +848,8 @@ where
         }
         drop(tx_result);
         drop(tx_state);
+        #[cfg(feature = "verif-hooks")]
+        crate::verif::rt::pt2("val_done", txid, conflict as usize);
         if txid == self.scheduler_ctx.finality_idx() {
             self.finality_wait.notify();
         }
@@ -804,6 +863,8 @@ where
 
     fn mark_mv_estimate(&self, txid: TxId, write_set: &HashSet<LocationAndType>) {
         for location in write_set {
+            #[cfg(feature = "verif-hooks")]
+            crate::verif::rt::pt2("mv_mark", txid, crate::verif::loc_hash(location));
             if let Some(mut written_transactions) = self.mv_memory.get_mut(location) &&
                 let Some(entry) = written_transactions.get_mut(&txid)
             {
@@ -813,6 +874,8 @@ where
     }
 
     fn execution_task(&self, execute_id: TxId) -> Option<Task> {
+        #[cfg(feature = "verif-hooks")]
+        crate::verif::rt::before_lock("lock_txstate", execute_id, || self.tx_states[execute_id].is_locked());
         let mut tx = self.tx_states[execute_id].lock();
         match tx.status {
             TransactionStatus::Initial | TransactionStatus::Conflict => {
@@ -834,6 +897,8 @@ where
 
     fn next(&self) -> Option<Task> {
         while !self.scheduler_ctx.finished() && !self.is_aborted() {
+            #[cfg(feature = "verif-hooks")]
+            crate::verif::rt::pt("spin");
             if !self.scheduler_ctx.should_schedule(self.tx_dependency.index()) {
                 thread::yield_now();
             }
@@ -841,6 +906,8 @@ where
             if let Some(validation_idx) =
                 self.scheduler_ctx.next_validation_idx(self.tx_dependency.index())
             {
+                #[cfg(feature = "verif-hooks")]
+                crate::verif::rt::before_lock("lock_txstate", validation_idx, || self.tx_states[validation_idx].is_locked());
                 let mut tx = self.tx_states[validation_idx].lock();
                 // Rewinds can make cursor claims duplicate or stale; state under this lock decides
                 // whether a validation task still exists.
